@@ -226,9 +226,9 @@ GroupModEl(n, cmd, gtype, buckets, tag) ==
   El(n, t, OpsOf(buckets) \o <<New(n, "NewGroupMod", <<>>), Set(n, "Xid", t.Header.Xid), Set(n, "Command", t.Command), Set(n, "Type", t.Type),
        Set(n, "GroupId", t.GroupId)>> \o [i \in DOMAIN buckets |-> Call(n, "AddBucket", <<Ref(buckets[i].n)>>)])
 PacketOutEl(n, acts, datalen, tag) ==
-  LET t == [T |-> "PacketOut", Header |-> [Xid |-> Xid(tag)], BufferId |-> V(tag, 4), InPort |-> V(tag + 1, 4), Actions |-> TreesOf(acts), Data |-> V(tag + 2, datalen)] IN
+  LET t == [T |-> "PacketOut", Header |-> [Xid |-> Xid(tag)], BufferId |-> V(tag, 4), InPort |-> V(tag + 1, 4), Actions |-> TreesOf(acts), Data |-> [T |-> "Buffer", B |-> V(tag + 2, datalen)]] IN
   El(n, t, OpsOf(acts) \o <<New(n, "NewPacketOut", <<>>), Set(n, "Xid", t.Header.Xid), Set(n, "BufferId", t.BufferId), Set(n, "InPort", t.InPort)>>
-       \o [i \in DOMAIN acts |-> Call(n, "AddAction", <<Ref(acts[i].n)>>)] \o <<Call(n, "SetData", <<t.Data>>)>>)
+       \o [i \in DOMAIN acts |-> Call(n, "AddAction", <<Ref(acts[i].n)>>)] \o <<Call(n, "SetData", <<t.Data.B>>)>>)
 SimpleEl(n, kind, tag) ==
   CASE kind = "echoreq"  -> El(n, [T |-> "Header", Type |-> <<2>>, Xid |-> Xid(tag)], <<New(n, "NewEchoRequest", <<>>), Set(n, "Xid", Xid(tag))>>)
     [] kind = "echorep"  -> El(n, [T |-> "Header", Type |-> <<3>>, Xid |-> Xid(tag)], <<New(n, "NewEchoReply", <<>>), Set(n, "Xid", Xid(tag))>>)
